@@ -72,6 +72,21 @@ type Stats struct {
 
 var ustats = make(map[int64]*Stats)
 
+// ustatsInsertLock serialises the insertion of a tenant's counters: every ingest handler calls one of the
+// Update* functions below, and the first requests of a tenant may well arrive concurrently.
+var ustatsInsertLock sync.Mutex
+
+func getOrCreateStats(orgid int64) *Stats {
+	ustatsInsertLock.Lock()
+	defer ustatsInsertLock.Unlock()
+	stats, ok := ustats[orgid]
+	if !ok {
+		stats = &Stats{}
+		ustats[orgid] = stats
+	}
+	return stats
+}
+
 var msgPrinter *message.Printer
 
 type QueryStats struct {
@@ -415,43 +430,34 @@ func FlushStatsToFile(orgid int64) error {
 }
 
 func UpdateStats(logsBytesCount uint64, logLinesCount uint64, orgid int64) {
-	if _, ok := ustats[orgid]; !ok {
-		ustats[orgid] = &Stats{}
-	}
-	atomic.AddUint64(&ustats[orgid].BytesCount, logsBytesCount)
-	atomic.AddUint64(&ustats[orgid].LogLinesCount, logLinesCount)
-	atomic.AddUint64(&ustats[orgid].TotalBytesCount, logsBytesCount)
-	atomic.AddUint64(&ustats[orgid].TotalLogLinesCount, logLinesCount)
-	atomic.AddUint64(&ustats[orgid].LogsBytesCount, logsBytesCount)
+	stats := getOrCreateStats(orgid)
+	atomic.AddUint64(&stats.BytesCount, logsBytesCount)
+	atomic.AddUint64(&stats.LogLinesCount, logLinesCount)
+	atomic.AddUint64(&stats.TotalBytesCount, logsBytesCount)
+	atomic.AddUint64(&stats.TotalLogLinesCount, logLinesCount)
+	atomic.AddUint64(&stats.LogsBytesCount, logsBytesCount)
 }
 
 func UpdateTracesStats(traceBytesCount uint64, traceSpanCount uint64, orgid int64) {
-	if _, ok := ustats[orgid]; !ok {
-		ustats[orgid] = &Stats{}
-	}
-	atomic.AddUint64(&ustats[orgid].BytesCount, traceBytesCount)
-	atomic.AddUint64(&ustats[orgid].TraceBytesCount, traceBytesCount)
-	atomic.AddUint64(&ustats[orgid].TraceSpanCount, traceSpanCount)
-	atomic.AddUint64(&ustats[orgid].TotalTraceSpanCount, traceSpanCount)
-	atomic.AddUint64(&ustats[orgid].TotalBytesCount, traceBytesCount)
+	stats := getOrCreateStats(orgid)
+	atomic.AddUint64(&stats.BytesCount, traceBytesCount)
+	atomic.AddUint64(&stats.TraceBytesCount, traceBytesCount)
+	atomic.AddUint64(&stats.TraceSpanCount, traceSpanCount)
+	atomic.AddUint64(&stats.TotalTraceSpanCount, traceSpanCount)
+	atomic.AddUint64(&stats.TotalBytesCount, traceBytesCount)
 }
 
 func UpdateMetricsStats(metricsBytesCount uint64, incomingMetrics uint64, orgid int64) {
-	if _, ok := ustats[orgid]; !ok {
-		ustats[orgid] = &Stats{}
-	}
-	atomic.AddUint64(&ustats[orgid].BytesCount, metricsBytesCount)
-	atomic.AddUint64(&ustats[orgid].MetricsDatapointsCount, incomingMetrics)
-	atomic.AddUint64(&ustats[orgid].TotalBytesCount, metricsBytesCount)
-	atomic.AddUint64(&ustats[orgid].TotalMetricsDatapointsCount, incomingMetrics)
-	atomic.AddUint64(&ustats[orgid].MetricsBytesCount, metricsBytesCount)
+	stats := getOrCreateStats(orgid)
+	atomic.AddUint64(&stats.BytesCount, metricsBytesCount)
+	atomic.AddUint64(&stats.MetricsDatapointsCount, incomingMetrics)
+	atomic.AddUint64(&stats.TotalBytesCount, metricsBytesCount)
+	atomic.AddUint64(&stats.TotalMetricsDatapointsCount, incomingMetrics)
+	atomic.AddUint64(&stats.MetricsBytesCount, metricsBytesCount)
 }
 
 func UpdateActiveSeriesCount(orgid int64, activeSeriesCount uint64) {
-	if _, ok := ustats[orgid]; !ok {
-		ustats[orgid] = &Stats{}
-	}
-	atomic.StoreUint64(&ustats[orgid].ActiveSeriesCount, activeSeriesCount)
+	atomic.StoreUint64(&getOrCreateStats(orgid).ActiveSeriesCount, activeSeriesCount)
 }
 
 func GetQueryStats(orgid int64) (uint64, float64, float64, uint64) {
